@@ -63,6 +63,12 @@ type Event {
   msg: String
   tag: String
   nested: Event
+  near(r: Span): Int
+}
+input Span {
+  lo: Int = 0
+  hi: Int = 9
+  tags: [String] = ["x"]
 }
 `
 
@@ -159,6 +165,9 @@ func (w *SubWorld) Expect(sb *SimSub, n int) (msg string, resolveErr bool) {
 		m1, e1 := ExpectFor(sb.SelIndex, n, bad)
 		m2, _ := ExpectFor(sb.SelIndex, n+500, false)
 		return "[" + m1 + "," + m2 + "]", e1
+	}
+	if sb.Near && !w.UnionEvents && w.ResolverEvents {
+		return `{"id":` + strconv.Itoa(n) + `,"near":309}`, false
 	}
 	if !w.UnionEvents {
 		return ExpectFor(sb.SelIndex, n, bad)
@@ -266,6 +275,11 @@ func (e *EvRes) Resolve(field *ggql.Field, args map[string]interface{}) (interfa
 			return "t" + strconv.Itoa(e.ID) + "@" + CanonLite(field.Context), nil
 		}
 		return "t" + strconv.Itoa(e.ID), nil
+	case "near":
+		// lo * 100 + hi of the argument as the library hands it over (defaults
+		// of the input type filled in)
+		r, _ := args["r"].(map[string]interface{})
+		return toInt(r["lo"])*100 + toInt(r["hi"]), nil
 	case "nested":
 		if e.Depth > 0 {
 			return nil, nil
@@ -300,6 +314,11 @@ type SimSub struct {
 	// TimeoutErr: failing deliveries return an error shaped like a network
 	// timeout (Timeout() == true).
 	TimeoutErr bool
+	// Near: the selection is { id near(r: $r) } - a field of the event that
+	// takes an input-object argument from a variable; NearVars is the variables
+	// map the caller passes (its own, kept and used again for its next request).
+	Near     bool
+	NearVars map[string]interface{}
 	// Marks: the subscriber writes a receipt into the message it is sent.
 	Marks bool
 	// EmptyGroupErr: failing deliveries return ggql.Errors{} - not nil, but
@@ -620,6 +639,27 @@ func (w *SubWorld) Subscribe(sid int) string {
 	if w.Leaf != 0 {
 		field = strings.Replace(field, "watch", leafFields[w.Leaf], 1)
 		sel, frag = "", ""
+	}
+	if s.Near && !w.UnionEvents && !w.ListEvents && w.Leaf == 0 && w.ResolverEvents {
+		// always through variables: $sid and $r, in the caller's own map
+		if !strings.Contains(op, "(") {
+			if !s.Named {
+				op = "subscription S"
+			}
+			op += "($sid: Int!, $r: Span)"
+		} else {
+			op = strings.Replace(op, "($sid: Int!)", "($sid: Int!, $r: Span)", 1)
+		}
+		sidText = "$sid"
+		if s.NearVars == nil {
+			s.NearVars = map[string]interface{}{}
+		}
+		vars = s.NearVars
+		vars["sid"] = sid
+		if _, has := vars["r"]; !has {
+			vars["r"] = map[string]interface{}{"lo": 3}
+		}
+		sel, frag = "{ id near(r: $r) }", ""
 	}
 	body := field + "(topic: " + topic + ", sid: " + sidText + ") " + sel
 	switch s.Wrap {
